@@ -361,6 +361,7 @@ func (p *Proxy) handleCONNECT(r responder.Responder, proxyReq *http.Request) err
 		// A fresh responder for every exchange: it accumulates the header set, length and status of
 		// the response it builds, and none of that may carry over to the next exchange on the tunnel.
 		tunnelResponder := responder.NewRawHTTPResponder(tlsConn)
+		tunnelResponder.SetRequestMethod(req.Method)
 		if err := p.handleHTTP(tunnelResponder, req); err != nil {
 			slog.Error("Error processing HTTP request in CONNECT tunnel", "host", proxyReq.Host, "error", err)
 			if errors.Is(err, ErrResponseAborted) {
